@@ -41,7 +41,25 @@ def _run(case, u):
         b = list(segment_clip(clip, case["d"] * u, **kw))
         c = list(segment_clip(other, case["d"] * u, **kw))
     except Exception as ex:
-        return {"raised": type(ex).__name__, "w": [], "w2": [], "idmap": [], "samerec": True, "ids_distinct": True, "ids_repeat": True}
+        return {"raised": type(ex).__name__, "w": [], "w2": [], "idmap": [], "w3": [], "w4": [], "samerec": True, "ids_distinct": True, "ids_repeat": True}
+    # provenance: a clip DERIVED from one that was already used (model_copy(update=...) keeps the instance __dict__, so
+    # anything memoised on the base clip would travel along), and the same call spelled with positional arguments
+    w3, w4 = [], []
+    try:
+        # the base clip is SHORTER than the case's clip (half its length): a stale duration would end the loop early
+        base = data.Clip(recording=_REC, start_time=case["s"] * u, end_time=(case["s"] + (case["e"] - case["s"]) // 2) * u,
+                         uuid=uuid.UUID(int=7_000_000 + case["s"] * 1024 + case["e"]))
+        _ = base.duration
+        list(segment_clip(base, max(case["d"], 1) * u))
+        derived = base.model_copy(update={"end_time": case["e"] * u})
+        w3 = [[ticks(x.start_time, u), ticks(x.end_time, u)] for x in segment_clip(derived, case["d"] * u, **kw)]
+        if case["h"]:
+            w4 = [[ticks(x.start_time, u), ticks(x.end_time, u)]
+                  for x in segment_clip(clip, case["d"] * u, case["h"][0] * u, bool(case["inc"]))]
+        else:
+            w4 = [[ticks(x.start_time, u), ticks(x.end_time, u)] for x in segment_clip(clip, case["d"] * u, None, bool(case["inc"]))]
+    except Exception as ex:
+        w3 = w4 = [[-1, -1]]
     # a second call on the SAME parent with another duration: windows with the same bounds must get the same identifier
     try:
         d2 = list(segment_clip(clip, (case["d"] + 1) * u, **kw))
@@ -52,7 +70,7 @@ def _run(case, u):
     return {"raised": "",
             "w": [[ticks(x.start_time, u), ticks(x.end_time, u)] for x in a],
             "w2": [[ticks(x.start_time, u), ticks(x.end_time, u)] for x in c],
-            "idmap": idmap,
+            "idmap": idmap, "w3": w3, "w4": w4,
             "samerec": all(x.recording == clip.recording for x in a) and all(x.recording == other.recording for x in c),
             "ids_distinct": len({x.uuid for x in a}) == len(a) and len({x.uuid for x in c}) == len(c),
             "ids_repeat": [x.uuid for x in a] == [x.uuid for x in b]}
